@@ -10,6 +10,7 @@ mod lexcheck;
 mod monitor;
 mod ops;
 mod panics;
+mod strcheck;
 
 use serde_json::{Value, json};
 use std::io::{BufRead, Write};
@@ -81,6 +82,20 @@ fn real_main() {
     let cmd = args.get(1).map(|s| s.as_str()).unwrap_or("serve");
     match cmd {
         "serve" => serve(),
+        "strings" => {
+            // kvrun strings <max_symbols> <shard> <n_shards>
+            let max: usize = args.get(2).and_then(|s| s.parse().ok()).unwrap_or(2);
+            let shard: usize = args.get(3).and_then(|s| s.parse().ok()).unwrap_or(0);
+            let n: usize = args.get(4).and_then(|s| s.parse().ok()).unwrap_or(1);
+            match panics::guarded(|| strcheck::exhaustive(max, shard, n)) {
+                Ok(v) => println!("{v}"),
+                Err(p) => println!("{}", json!({"panic": panics::to_json(&p)})),
+            }
+        }
+        "format-grid" => match panics::guarded(strcheck::format_grid) {
+            Ok(v) => println!("{v}"),
+            Err(p) => println!("{}", json!({"panic": panics::to_json(&p)})),
+        },
         "lex" => {
             // kvrun lex <main|sub> <max_len> <shard> <n_shards>
             let alphabet = if args.get(2).map(|s| s.as_str()) == Some("sub") {
